@@ -118,11 +118,13 @@ def sizes1(t):
 def matmul_triples(t):
     base = [(2, 2, 2), (3, 3, 3), (4, 4, 4), (8, 8, 8), (3, 3, 1), (1, 3, 3), (3, 1, 3), (1, 1, 1), (2, 3, 4), (5, 5, 5), (3, 9, 1), (9, 3, 3),
             # wide right-hand sides: the interior masked block kernels start at N >= 5 vector widths
+            # hand-written kernels for M == N in {2,3,4,8}, K != M: rows of 3 loaded as 4, unpadded operands
+            (2, 4, 2), (2, 8, 2), (2, 3, 2), (3, 4, 3), (3, 8, 3), (3, 16, 3), (3, 2, 3), (3, 20, 3), (4, 8, 4), (4, 3, 4), (4, 16, 4), (8, 4, 8), (8, 3, 8), (8, 16, 8),
             (5, 4, 22), (4, 3, 21), (4, 2, 23), (5, 3, 43), (8, 2, 41), (4, 4, 45), (6, 2, 83), (4, 3, 26), (12, 2, 22), (4, 5, 31)]
     Ms = [1, 2, 3, 4, 5, 8]; Ks = [1, 2, 3, 4, 7]; Ns = [1, 2, 3, 4, 5, 6, 7, 8, 9, 10, 12, 15, 16, 17]
     g = _lcg({'float': 11, 'double': 22, 'int': 33}[t])
     out = list(base)
-    while len(out) < 94:
+    while len(out) < 108:
         m, k, n = Ms[next(g) % len(Ms)], Ks[next(g) % len(Ks)], Ns[next(g) % len(Ns)]
         if (m, k, n) not in out:
             out.append((m, k, n))
@@ -206,8 +208,9 @@ def memsim_ops(config, flags):
             reg(f'op_print<{t},{sh}>', 'exempt', 'F_EXEMPT')
     for t in ('float', 'double', 'int'):
         for i, (m, k, n) in enumerate(matmul_triples(t)):
-            reg(f'op_matmul<{t},{m},{k},{n}>', 'matmul', keep=n >= 20)
-            reg(f'op_raw_matmul<{t},{m},{k},{n}>', 'raw_matmul', keep=n >= 20)
+            special = n >= 20 or (m == n and m in (2, 3, 4, 8) and k != m)
+            reg(f'op_matmul<{t},{m},{k},{n}>', 'matmul', keep=special)
+            reg(f'op_raw_matmul<{t},{m},{k},{n}>', 'raw_matmul', keep=special)
             reg(f'op_raw_matmul_probe<{t},{m},{k},{n}>', 'raw_matmul_probe', 'F_UNJUDGED | F_ANYALIGN')
             if i % 2 == 0:
                 reg(f'op_map_matmul<{t},{m},{k},{n}>', 'map_matmul', 'F_ANYALIGN')
@@ -245,6 +248,9 @@ def memsim_ops(config, flags):
                 reg(f'op_lu<{t},{n}>', 'lu')
                 reg(f'op_qr<{t},{n}>', 'qr')
                 reg(f'op_solve<{t},{n},{1 + n % 3}>', 'solve')
+        for n in (2, 3, 4, 5, 7, 8, 12):
+            reg(f'op_piv_expr<{t},{n}>', 'pivoted_factorisation', keep=True)
+            reg(f'op_piv_solve_inv<{t},{n}>', 'pivoted_solve', keep=True)
         for n in (12, 16, 17, 20):
             reg(f'op_inverse_strategies<{t},{n}>', 'inverse')
             reg(f'op_lu<{t},{n}>', 'lu')
@@ -474,7 +480,7 @@ M_SHAPES = [((6,), (2, 3), (3, 2)), ((12,), (3, 4), (2, 2, 3)), ((16,), (4, 4), 
             ((9,), (3, 3), (1, 9)), ((35,), (5, 7), (7, 5)), ((64,), (8, 8), (4, 4, 4)), ((30,), (2, 15), (2, 3, 5)), ((48,), (6, 8), (2, 2, 3, 4)),
             ((7,), (7, 1), (1, 1, 7)), ((33,), (3, 11), (11, 3))]
 M_KINDS = ['K_SCALAR', 'K_TENSOR', 'K_EXPR', 'K_SELF_EXPR', 'K_METHOD', 'K_ELEM', 'K_FIXVIEW', 'K_DYNVIEW', 'K_REDUCE', 'K_READ_EXPR', 'K_MATMUL',
-           'K_REWRAP', 'K_SOURCE_WRITE', 'K_CTOR_LAYOUT']
+           'K_REWRAP', 'K_SOURCE_WRITE', 'K_CTOR_LAYOUT', 'K_MAP_COPY']
 
 
 def gen_mapsim(bdir, config, flags):
